@@ -132,6 +132,25 @@ CLAIMS = {
              "version / response-allowed are never encoded). The with-list variants are not representable in the library.",
         technique="Coq proof (per-kind layout and inverse theorems) + generated tables + differential correspondence",
         design="4/C01"),
+    "C02": dict(
+        text="Coq theorems (axiom-free) over the model of ber.py, the ACSE component codecs (context / mechanism object "
+             "identifiers, authentication value, functional unit, user-information wrapping the xDLMS APDU of C01) and the four "
+             "APDUs with their component loops (tag tables, component order and OID constants generated from the source on "
+             "every run): for EVERY AARQ, AARE, RLRQ and RLRE in the stated domain - any context, every mechanism, every "
+             "result x diagnostic, every release reason, titles / certificates / passwords / challenges / user-information of "
+             "ANY length below 2^24, every optional component present or absent - the encoder produces exactly the bytes of "
+             "an independent BER reference writer, those bytes are the encoding of a TLV tree (definite lengths, well nested "
+             "at every level), decoding them returns the value, different values have different encodings, and the "
+             "acse-requirements and mechanism-name components are present exactly when a mechanism other than none is "
+             "selected. Correspondence compares to_bytes/from_bytes with the model on boundary-complete grids and on "
+             "malformed input; the search compares the implementation with the extracted reference writer and an independent "
+             "TLV checker.",
+        note="Value domain: authentication None == AuthenticationMechanism.NONE; user-information content in the domain of "
+             "C01. The 'authentication value present exactly when a mechanism is selected' clause is proved for the "
+             "consistent combinations and proved false for the others (known finding F02c). asn1crypto's handling of the "
+             "result-source-diagnostic CHOICE is modelled on its canonical form, not verified.",
+        technique="Coq proof (component-list lemmas by induction, per-APDU layout and inverse theorems) + generated tables + differential correspondence",
+        design="4/C02"),
     "C05": dict(
         text="Coq theorems (axiom-free), for an ARBITRARY block function with 16-byte output and hence for AES: protecting a "
              "plaintext yields GCM ciphertext || first 12 tag bytes with nonce = title || 4-byte counter and AAD = "
